@@ -63,13 +63,18 @@ Proof.
   intros p file Hwf Hlen tag f Hin. unfold run_stacks in Hin.
   destruct (read_header file) as [[e ds]| | |]; try contradiction.
   pose proof (blen_nonneg _ file) as Hnn.
-  cbn [In] in Hin. destruct Hin as [H|[]]; inversion H; subst; clear H; eapply fld_rsat.
-  apply q_ts_rsat.
-  - exact (proj2 (s_tl_sat p e file ds Hwf Hlen)).
-  - apply unified_memory_rsat.
-    + apply raw_stream_wf; exact Hwf.
-    + exact (proj2 (s_m64_sat p e file ds Hwf Hlen)).
-    + unfold s_mem.
-      refine (proj2 (get_stream_sat _ file ds ST_MEMORY_LIST _ (ALLOC_FILE_C * blen file) (Forall wf_bytes) Hwf _)).
-      intros s Hs Hl. pose proof (blen_nonneg _ s). apply read_memory_list_wf_sat; try assumption; unfold ALLOC_FILE_C, ALLOC_C, T62 in *; lia.
+  cbn [In] in Hin. destruct Hin as [H|[H|[]]]; inversion H; subst; clear H; eapply fld_rsat.
+  - apply q_ts_rsat.
+    + exact (proj2 (s_tl_sat p e file ds Hwf Hlen)).
+    + apply unified_memory_rsat.
+      * apply raw_stream_wf; exact Hwf.
+      * exact (proj2 (s_m64_sat p e file ds Hwf Hlen)).
+      * unfold s_mem.
+        refine (proj2 (get_stream_sat _ file ds ST_MEMORY_LIST _ (ALLOC_FILE_C * blen file) (Forall wf_bytes) Hwf _)).
+        intros s Hs Hl. pose proof (blen_nonneg _ s). apply read_memory_list_wf_sat; try assumption; unfold ALLOC_FILE_C, ALLOC_C, T62 in *; lia.
+  - unfold q_tig. eapply rsat_bind; [exact (proj2 (s_ti_sat p e file ds Hwf Hlen))|]. intros n _.
+    eapply rsat_bind; [apply raw_stream_wf; exact Hwf|]. intros b _.
+    eapply rsat_weaken; [|apply seq_res_rsat_all with (Q := fun _ => True)]; [intros; exact I|].
+    apply Forall_forall. intros x Hx. apply in_map_iff in Hx. destruct Hx as (d & <- & _).
+    eapply rsat_weaken; [|apply get_thread_index_rsat]. intros; exact I.
 Qed.
